@@ -28,7 +28,13 @@ def _node_for(g, stmt):
     return n
 
 
-def expand(ctx, fi, expr, at_stmt, depth=0):
+_SCALAR = (ast.Attribute, ast.Name, ast.Constant, ast.BinOp, ast.BoolOp, ast.Compare, ast.UnaryOp, ast.Subscript, ast.IfExp,
+           ast.operator, ast.boolop, ast.cmpop, ast.unaryop, ast.expr_context, ast.Slice)
+
+
+def expand(ctx, fi, expr, at_stmt, depth=0, only=None):
+    """only='pure': replace a name only by a defining expression made of attribute accesses, operators and method calls
+    on names (no constructor / function calls at the top: `x = C()` stays `x`)"""
     g, RD = _rd(ctx, fi)
     node = _node_for(g, at_stmt)
     if node is None or depth > 12:
@@ -51,10 +57,20 @@ def expand(ctx, fi, expr, at_stmt, depth=0):
                     isinstance(st.targets[0], ast.Name) and st.targets[0].id == n.id:
                 if st is at_stmt:
                     return n
-                return expand(ctx, fi, copy.deepcopy(st.value), st, depth + 1)
+                if only == 'pure' and (isinstance(st.value, ast.Call) and not isinstance(st.value.func, ast.Attribute) or
+                                       isinstance(st.value, ast.Call) and _is_ctor_like(st.value)):
+                    return n
+                return expand(ctx, fi, copy.deepcopy(st.value), st, depth + 1, only)
             return n
 
     return T().visit(copy.deepcopy(expr))
+
+
+def _is_ctor_like(call):
+    """mod.Class(...) - a capitalised last component"""
+    f = call.func
+    name = f.attr if isinstance(f, ast.Attribute) else getattr(f, 'id', '')
+    return bool(name) and name[0].isupper()
 
 
 def _terminates(body):
